@@ -117,6 +117,18 @@ Theorem C10_resolves_to_functional : forall r e e1 e2, resolves_to r e e1 -> res
 Proof. exact resolves_to_functional. Qed.
 Print Assumptions C10_resolves_to_functional.
 
+(* memoisation (_deep_eval_map kept between calls on one resolver object) does not change an answer *)
+Theorem C10_value_of_m_sound : forall r fuel memo vis e e' memo',
+  memo_ok r memo -> value_of_m fuel r memo vis e = (Ok e', memo') -> resolves_to r e e' /\ memo_ok r memo'.
+Proof. exact value_of_m_sound. Qed.
+Print Assumptions C10_value_of_m_sound.
+
+Theorem C10_memo_does_not_change_answers : forall r fuel fuel' es memo e e' e'',
+  memo_ok r memo -> In (e, Ok e') (combine es (value_of_seq fuel r memo es)) ->
+  value_of fuel' r [] e = Ok e'' -> e' = e''.
+Proof. exact memo_does_not_change_answers. Qed.
+Print Assumptions C10_memo_does_not_change_answers.
+
 (* recursive=False is exactly one simultaneous substitution *)
 Theorem C10_value_of_once_subst : forall r e, value_of_once r e = subst r e.
 Proof. exact value_of_once_subst. Qed.
